@@ -198,6 +198,10 @@ end
 zgcmp :: fn p, q -> do
     (p, 1.0) < (q, 2.0)
 end
+zglocal :: fn p do
+    zgx := (p, 1)
+    zgy := zgx + (2, 3)
+end
 ZT :: (1, 2)
 Zb :: blob {
     a: int,
@@ -755,6 +759,7 @@ C03_KINDS = {
     "generic-tuple-add2": ('zgtup(1, 2.0)', None),
     "generic-tuple-neg":  ('zgneg("a")', None),
     "generic-tuple-cmp":  ('zgcmp(true, false)', None),
+    "generic-local-tuple-add": (None, ['zglocal("a")']),
     "ret-type":       (None, None),      # needs the slot's return type: see c03_plants
     # compound assignment on a type without that operator, also with the SAME variable on both sides
     "compound-self-bool-add": (None, ['zc1 := true', 'zc1 += zc1']),
@@ -803,7 +808,7 @@ def c03_plants(tmpl, kinds=None):
                         out.append((k, "S", i, info, st))
                     continue
                 if d.get("pure") == "1" and (k in ("loop-cond", "assign-type", "void-store", "param-type", "var-type")
-                                             or k.startswith("compound")):
+                                             or k.startswith("compound") or k.startswith("generic")):
                     continue        # mutable definitions / impure calls are rejected in pure functions anyway
                 out.append((k, "S", i, info, st))
         if k == "ret-type":
